@@ -38,7 +38,7 @@ func verifHexVal(c byte) int {
 }
 
 // verifDecodeString is the reference decoder of a double quoted string body (escape table of the README):
-// \n \r \t, \xHH, \uHHHH, \UHHHHHHHH, any other escaped byte stands for itself. Bytes past the end read as 0.
+// \n \r \t \a \b \f \v, \xHH, \uHHHH, \UHHHHHHHH, any other escaped byte stands for itself. Bytes past the end read as 0.
 func verifDecodeString(body []byte) string {
 	at := func(i int) byte {
 		if i < len(body) {
@@ -62,6 +62,14 @@ func verifDecodeString(body []byte) string {
 			out = append(out, '\r')
 		case 't':
 			out = append(out, '\t')
+		case 'a':
+			out = append(out, '\a')
+		case 'b':
+			out = append(out, '\b')
+		case 'f':
+			out = append(out, '\f')
+		case 'v':
+			out = append(out, '\v')
 		case 'x':
 			out = append(out, byte(verifHexVal(at(i+1))<<4|verifHexVal(at(i+2))))
 			i += 2
